@@ -578,3 +578,29 @@ func init() {
 			return Outcome{}
 		}})
 }
+
+// ---------------------------------------------------------------------------
+// C01
+
+func init() {
+	addProbes("C01", Probe{
+		Key:  "deferred-predicate-call-shares-variable-scope",
+		Desc: "a clause of a deferred (top-down) predicate was evaluated in the caller's variable scope: a recursive call, or a caller that uses the same variable names, made the clause fail to unify and answers were lost without an error",
+		Run: func(r *simrt.Run) Outcome {
+			return evalProbeCases(r, "C01/missing-fact", []probeCase{
+				{name: "recursive deferred predicate", preds: []string{"q"}, want: "q(0,0) q(2,0)",
+					text: "Decl down(X, Y) descr [mode('+', '-'), deferred()].\ndown(X, Y) :- X = 0, Y = 0.\ndown(X, Y) :- X != 0, Z = fn:minus(X, 1), down(Z, Y).\ns(0). s(2).\nq(X, Y) :- s(X), down(X, Y).\n"},
+				{name: "caller and callee share a variable name", preds: []string{"q"}, want: "q(1,3) q(2,4)",
+					text: "Decl up(A, Y) descr [mode('+', '-'), deferred()].\nup(A, Y) :- Y = fn:plus(A, 2).\ns(1). s(2).\nq(Y, A) :- s(Y), up(Y, A).\n"},
+			})
+		}}, Probe{
+		Key:  "merge-key-not-first-column",
+		Desc: "mergeDelta looked up the existing facts of a merge predicate by the leading columns instead of the columns its functional dependency names: with the key in the second column a fact of another key was replaced",
+		Run: func(r *simrt.Run) Outcome {
+			return evalProbeCases(r, "C01/missing-fact", []probeCase{
+				{name: "key in the second column", preds: []string{"best"}, want: "best(3,/c) best(5,/a) best(5,/b)",
+					text: "Decl best(S, L) descr [fundep([L], [S]), merge([S], \"minv\")].\n" + latticeMinDecl +
+						"cand(1, 5, /b). cand(2, 5, /a). cand(1, 5, /c). cand(2, 3, /c).\nstep(1). step(2).\nat(1).\nat(N) :- at(M), step(M), N = fn:plus(M, 1).\nbest(S, L) :- at(N), cand(N, S, L).\n"},
+			})
+		}})
+}
